@@ -338,7 +338,15 @@ func writeOption(writer io.Writer, optionName string, optionType reflect.Kind, o
 	fmt.Fprintf(writer, "%s%s =", comment, optionName)
 
 	if optionKey != "" {
-		fmt.Fprintf(writer, " %s:%s", optionKey, optionValue)
+		keyValue := optionKey + ":" + optionValue
+
+		// A key which can not be written as is protects the whole entry
+		// (the reader unquotes a quoted entry before splitting it)
+		if iniNeedsQuote(optionKey) {
+			keyValue = strconv.Quote(keyValue)
+		}
+
+		fmt.Fprintf(writer, " %s", keyValue)
 	} else if optionValue != "" {
 		fmt.Fprintf(writer, " %s", optionValue)
 	}
